@@ -64,6 +64,12 @@ CHECKS = {
         note="Trusted base: expand() on recipes, snapshot S, resolver D; Tfy.tagify() returns fully tagified expansions as the protocol requires.",
         ref="2/C09",
     ),
+    "C10": dict(
+        technique="property-based reference model: Hypothesis multisets of dependencies (colliding names, multi-component and suffixed versions) placed anywhere in generated trees vs. the harness's own resolver (integer-tuple version key, first-wins ties, first-occurrence order) decided on uid-tagged recipes; single-vs-list equivalence; generated invalid definitions must raise",
+        text="Seeded generated-input search against an independent resolver; idempotence and placement-independence laws; validation clause enumerates invalid source/item shapes at generated indices. Exploration.",
+        note="Trusted base: resolver D and its version key (cross-checked against packaging.Version on a fixed table at start-up).",
+        ref="2/C10",
+    ),
 }
 
 PENDING_REASON = "check not built yet in this revision (work in progress; see DESIGN.md section 2 for the planned generator and oracle)"
